@@ -32,8 +32,11 @@ import sys
 import time
 
 ROOT = os.path.dirname(os.path.dirname(os.path.abspath(__file__)))
-REPO = os.environ.get("VERIF_REPO", "/repo")
-BUILD = os.path.join(ROOT, ".build")
+REPO = os.path.abspath(os.environ.get("VERIF_REPO", "/repo"))
+ALT = REPO != "/repo"
+# self-test against a scratch copy of the repository (mutants): separate build / evidence / replay directories
+BUILD = os.path.join(ROOT, ".build") if not ALT else os.path.join(ROOT, ".build", "alt-" + hashlib.sha256(REPO.encode()).hexdigest()[:10])
+OUT = ROOT if not ALT else BUILD
 NCPU = int(os.environ.get("VERIF_JOBS", "16"))
 TARGET = "x86_64-unknown-linux-gnu"
 
@@ -145,6 +148,30 @@ class Ctx:
         fcntl.flock(f, fcntl.LOCK_EX)
         return f
 
+    def _crate_dir(self, crate):
+        """The harness crate to build. With VERIF_REPO pointing elsewhere, a copy whose path dependency is rewritten."""
+        src = os.path.join(ROOT, crate)
+        if not ALT:
+            return src
+        base = os.path.join(BUILD, "crates")
+        os.makedirs(base, exist_ok=True)
+        if not hasattr(self, "_copied"):
+            self._copied = set()
+        if crate in self._copied:
+            return os.path.join(base, crate)
+        self._copied.add(crate)
+        for c in (crate, "common"):
+            dst = os.path.join(base, c)
+            subprocess.run(["rsync", "-a", "--delete", "--exclude", "target", "--exclude", "Cargo.lock", os.path.join(ROOT, c) + "/", dst + "/"], check=True)
+            toml = os.path.join(dst, "Cargo.toml")
+            with open(toml) as f:
+                t = f.read()
+            t2 = t.replace('path = "/repo"', 'path = "%s"' % REPO).replace('path = "/verif/common"', 'path = "../common"')
+            if t2 != t:
+                with open(toml, "w") as f:
+                    f.write(t2)
+        return os.path.join(base, crate)
+
     def _ensure_lock(self, crate_dir):
         lock = os.path.join(crate_dir, "Cargo.lock")
         if not os.path.exists(lock):
@@ -156,7 +183,7 @@ class Ctx:
         """Builds `binary` of /verif/<crate> against the repository working tree; returns the path of a
         private copy of the executable (so later builds with other features do not replace it)."""
         t0 = time.time()
-        crate_dir = os.path.join(ROOT, crate)
+        crate_dir = self._crate_dir(crate)
         self._ensure_lock(crate_dir)
         tdir = os.path.join(BUILD, tool + "-" + crate)
         env = base_env()
@@ -198,7 +225,7 @@ class Ctx:
 
     def miri_argv(self, crate, binary, features, args, seeds=None, flags=""):
         """argv + env + cwd for running a binary of /verif/<crate> under Miri."""
-        crate_dir = os.path.join(ROOT, crate)
+        crate_dir = self._crate_dir(crate)
         self._ensure_lock(crate_dir)
         tdir = os.path.join(BUILD, "miri-" + crate)
         argv = ["cargo", "+nightly", "miri", "run", "--offline", "--bin", binary, "--target-dir", tdir, "--no-default-features"]
@@ -474,7 +501,7 @@ def main():
         else:
             new_viols.append(v)
 
-    replays_dir = os.path.join(ROOT, "replays")
+    replays_dir = os.path.join(OUT, "replays")
     os.makedirs(replays_dir, exist_ok=True)
     printed = set()
     nv = 0
@@ -515,6 +542,7 @@ def main():
         "sets": {k: sorted(v)[:200] for k, v in sets.items()},
         "set_sizes": {k: len(v) for k, v in sets.items()},
         "steps": len(steps),
+        "slowest_steps_s": {st.name: round(st.wall, 1) for st in sorted(steps, key=lambda st: -st.wall)[:5]},
         "tool_runs": tool_runs,
         "build_wall_s": round(ctx.build_wall, 1),
         "inconclusive_reasons": inconclusive[:50],
@@ -532,15 +560,17 @@ def main():
     except Exception as e:  # evidence that does not validate is still written, and said so
         log("evidence does not validate: %r" % (e,))
         cov["validated_with"] = "FAILED: %r" % (e,)
-    os.makedirs(os.path.join(ROOT, "evidence"), exist_ok=True)
-    tmp = os.path.join(ROOT, "evidence", prop + ".json.tmp")
+    os.makedirs(os.path.join(OUT, "evidence"), exist_ok=True)
+    tmp = os.path.join(OUT, "evidence", prop + ".json.tmp")
     with open(tmp, "w") as f:
         json.dump(ev, f, indent=1, sort_keys=True)
-    os.replace(tmp, os.path.join(ROOT, "evidence", prop + ".json"))
+    os.replace(tmp, os.path.join(OUT, "evidence", prop + ".json"))
     log("[%s/%s] evaluations=%d distinct_nontrivial=%d violations=%d known=%d inconclusive=%d wall=%.1fs" % (
         prop, args.tier, evaluations, distinct, len(printed), len(known_hits), len(inconclusive), wall))
     for s in inconclusive[:10]:
         log("  inconclusive: " + s)
+    slow = sorted(steps, key=lambda st: -st.wall)[:4]
+    log("  slowest steps: " + ", ".join("%s %.0fs" % (st.name, st.wall) for st in slow))
     if not new_viols and not args.keep_logs:
         shutil.rmtree(logdir, ignore_errors=True)
     return 1 if new_viols else 0
@@ -561,6 +591,12 @@ def setup(args):
     """Builds everything the quick tier of every check needs (offline, from files on disk only)."""
     tier = "quick"
     props = sorted(f[:-3] for f in os.listdir(os.path.join(ROOT, "checks")) if re.match(r"C\d+\.py$", f))
+    try:
+        with open(os.path.join(ROOT, "MANIFEST.json")) as f:
+            claimed = {c["property_id"] for c in json.load(f).get("checks", [])}
+        props = [p for p in props if p in claimed]
+    except (OSError, ValueError):
+        pass
     if args:
         props = [p for p in props if p in args]
     shared = Ctx("setup", tier, 1)
@@ -574,6 +610,13 @@ def setup(args):
             ctx._warmed = shared._warmed
             steps = mod.plan(ctx)
             log("[setup] %s: %d steps planned, build %.1fs" % (p, len(steps), ctx.build_wall))
+            if getattr(mod, "SETUP_RUNS_STEPS", False):
+                # the check builds inside its step (generated cargo package): run it once to warm the target dir
+                ld = os.path.join(BUILD, "logs", "setup-" + p)
+                for st in steps:
+                    run_step(st, ld)
+                    log("[setup] %s: warm-up step %s rc=%s %.0fs" % (p, st.name, st.rc, st.wall))
+                shutil.rmtree(ld, ignore_errors=True)
         except HarnessError as e:
             log("[setup] %s: HARNESS-ERROR %s" % (p, e))
             rc = 2
